@@ -608,6 +608,20 @@ pub fn declaration_variants() -> Vec<Vec<Item>> {
         Item::Multiclass { doc: vec![], name: "MAfter".into(), targs: vec![TArg { ty: Ty::Int, name: "mt0".into(), default: None }], parents: vec![], body: vec![Item::Def { doc: vec![], blank: false, name: Some("_x".into()), parents: vec![CRef::with("P", vec![id("mt0")])], body: None }] },
         Item::Def { doc: vec![], blank: false, name: Some("after".into()), parents: vec![CRef::with("C", vec![])], body: None },
     ]);
+    // an if / else-if / else chain with a declaration in every branch
+    {
+        let pd = |n: &str, a: i64| Item::Def { doc: vec![], blank: false, name: Some(n.into()), parents: vec![CRef::with("P", vec![int(a)])], body: None };
+        out.push(vec![
+            base.clone(),
+            Item::If {
+                cond: E::Bool(false),
+                then: vec![pd("zero", 0)],
+                then_braces: true,
+                els: Some(vec![Item::If { cond: E::Bool(false), then: vec![pd("one", 1)], then_braces: true, els: Some(vec![Item::If { cond: E::Bool(true), then: vec![pd("two", 2)], then_braces: true, els: Some(vec![pd("many", 3)]) }]) }]),
+            },
+            pd("tail", 4),
+        ]);
+    }
     // the same name declared more than once: every declaration is an entry of the outline
     let pdef = |n: &str, a: i64| Item::Def { doc: vec![], blank: false, name: Some(n.into()), parents: vec![CRef::with("P", vec![int(a)])], body: None };
     out.push(vec![
